@@ -182,9 +182,10 @@ Section LoopProofs.
   Qed.
 
   (* ---------------------------------------------------------------- resolve *)
-  (* a failed or abandoned trial keeps the point and doubles lambda (StepController.fail_result) *)
+  (* a failed trial keeps the point and doubles lambda (StepController.fail_result); a trial abandoned at a
+     deadline test keeps the point and lambda *)
   Lemma resolve_cases c clk s p dt a nx l acc k : resolve c clk s p dt a = (nx, l, acc, k) ->
-    (nx = cur It s /\ l = 2 * (1 / dt) /\ acc = false)
+    (nx = cur It s /\ (l = 2 * (1 / dt) \/ l = 1 / dt) /\ acc = false)
     \/ (exists n, a = Ans It nx l acc n).
   Proof.
     unfold Loop.resolve. intros H.
@@ -197,7 +198,7 @@ Section LoopProofs.
   Qed.
 
   Lemma resolve_fail c clk s p dt n nx l acc k : resolve c clk s p dt (Fail It n) = (nx, l, acc, k) ->
-    nx = cur It s /\ l = 2 * (1 / dt) /\ acc = false.
+    nx = cur It s /\ (l = 2 * (1 / dt) \/ l = 1 / dt) /\ acc = false.
   Proof.
     intros H. destruct (resolve_cases _ _ _ _ _ _ _ _ _ _ H) as [?|[m Hm]]; auto. discriminate.
   Qed.
